@@ -167,6 +167,7 @@ def main():
     tier = os.environ.get('VERIF_TIER', 'quick')
     replay = None
     only = None
+    fail_fast = bool(os.environ.get('VERIF_FAIL_FAST'))
     i = 1
     while i < len(argv):
         if argv[i] == '--tier':
@@ -178,6 +179,9 @@ def main():
         elif argv[i] == '--only':
             only = argv[i + 1]
             i += 2
+        elif argv[i] == '--fail-fast':
+            fail_fast = True
+            i += 1
         else:
             print('unknown argument', argv[i])
             return 2
@@ -212,8 +216,17 @@ def main():
     alloc = CpuAlloc()
     results = [None] * len(cases)
 
+    stop = threading.Event()
+
     def work(i):
+        if stop.is_set():
+            results[i] = dict(case=cases[i], args=[], rc=0, stderr='', wall=0.0, timed_out=False, json=None,
+                              attempts=0, env={}, skipped=True)
+            return
         results[i] = run_case(cases[i], alloc, seed, tier, outdir, i)
+        r = results[i]
+        if fail_fast and not r['timed_out'] and (r['rc'] not in (0, 4) or (r['json'] or {}).get('violations')):
+            stop.set()
 
     # big cases first so that small ones fill the gaps
     order = sorted(range(len(cases)), key=lambda i: -cases[i].get('cpus', 8))
@@ -227,6 +240,8 @@ def main():
     for r in results:
         j = r['json']
         name = r['case'].get('name', '?')
+        if r.get('skipped'):
+            continue
         if r['timed_out']:
             inconclusive.append('%s: outer wall-clock watchdog (%ds) fired twice' % (name, r['case'].get('timeout', 300)))
             continue
